@@ -79,6 +79,10 @@ def build(rng, i, transport="u"):
         r.te_value = rng.choice(["chunked", "chunked", "Chunked", "CHUNKED"])
     if fr == "chunked" and rng.chance(1, 4):
         r.headers.append(("Content-Length", str(rng.choice([0, 3, size + 5]))))   # TE wins over any Content-Length
+    if rng.chance(1, 8):
+        # media types do not frame a request: without Content-Length / Transfer-Encoding there is no body, whatever the type
+        r.headers.append(("Content-Type", rng.choice(["multipart/byteranges; boundary=X", "Multipart/ByteRanges", "multipart/form-data; boundary=b",
+                                                     "application/octet-stream", "message/http"])))
     if rng.chance(1, 12):
         # the framing headers come after more than a hundred other header fields
         r.headers = r.headers + [("X-Pad-%d" % k, "v") for k in range(rng.choice([100, 101, 130, 400]))]
